@@ -21,6 +21,22 @@ type Prop struct {
 	Assumptions []string
 }
 
+// deepen derives the thorough bounds of a directory harness from its quick
+// bounds: one more segment (at most 3) and one more version pattern (at most 4).
+func deepen(q B) B {
+	t := B{}
+	for k, v := range q {
+		t[k] = v
+	}
+	if v, ok := t["segs"]; ok && v < 3 {
+		t["segs"] = v + 1
+	}
+	if v, ok := t["vers"]; ok && v < 4 {
+		t["vers"] = v + 1
+	}
+	return t
+}
+
 func plus1(name string) func(map[string]int) int {
 	return func(b map[string]int) int { return b[name] + 1 }
 }
@@ -57,6 +73,7 @@ func addProp(p *Prop) {
 }
 
 func init() {
+	two := func(map[string]int) int { return 2 }
 	idxConsume := HarnessRun{Name: "h_index.IndexConsume", Quick: B{"items": 6}, Thorough: B{"items": 10},
 		Split: []SplitDim{{"n", plus1("items")}}, Reach: []string{"empty", "oldest", "newest", "after-end", "middle"}}
 	idxGet := HarnessRun{Name: "h_index.IndexGet", Quick: B{"items": 6}, Thorough: B{"items": 10},
@@ -72,23 +89,29 @@ func init() {
 
 	layoutSplit := []SplitDim{{"layout", numLayouts}, {"ver", same("vers")}, {"prof", same("profs")}}
 	dirQ := B{"segs": 2, "recs": 2, "vers": 3, "profs": 2}
-	dirT := B{"segs": 3, "recs": 2, "vers": 4, "profs": 3}
+	var dirT B // thorough = deepen(quick)
 	qConsume := HarnessRun{Name: "h_log.QueryConsume", Quick: dirQ, Thorough: dirT, Split: layoutSplit,
 		Reach: []string{"newest", "beyond-next", "non-empty", "empty-result", "empty-head-with-older-segments", "single-empty-segment", "multi-segment"}}
 	cursor := HarnessRun{Name: "h_log.Cursor", Quick: dirQ, Thorough: dirT, Split: layoutSplit, Reach: []string{"cursor-done"}}
 	qGet := HarnessRun{Name: "h_log.QueryGet", Quick: dirQ, Thorough: dirT, Split: layoutSplit,
 		Reach: []string{"oldest", "newest", "unassigned", "live", "deleted", "relative-empty"}}
 
-	addProp(&Prop{ID: "C03", DesignRef: "DESIGN.md §4 C03", Runs: []HarnessRun{idxConsume, segConsume, qConsume, cursor}})
+	addProp(&Prop{ID: "C03", DesignRef: "DESIGN.md §4 C03", Runs: []HarnessRun{idxConsume, segConsume, qConsume, cursor,
+		{Name: "h_step.Delete", Quick: B{"segs": 2, "recs": 2, "vers": 1, "profs": 1, "paramsets": 1, "rmindex": 1, "deletes": 1}, Thorough: B{"segs": 3, "recs": 2, "vers": 2, "profs": 1, "paramsets": 1, "rmindex": 1, "deletes": 2},
+			Split: []SplitDim{{"layout", numLayouts}, {"ver", same("vers")}, {"prof", same("profs")}, {"params", same("paramsets")}, {"rmindex", same("rmindex")}}, Reach: []string{"head-tail-deleted", "head-rebased", "reader-segment-emptied"}}}})
 	addProp(&Prop{ID: "C04", DesignRef: "DESIGN.md §4 C04", Runs: []HarnessRun{idxGet, segGet, qGet}})
 	qTime := HarnessRun{Name: "h_log.QueryTime", Quick: dirQ, Thorough: dirT, Split: layoutSplit,
 		Reach: []string{"index-rebuilt", "no-live-message", "empty-head", "after-all", "equal-run", "multi-segment", "empty-head-with-older-segments"}}
 	noIndex := HarnessRun{Name: "h_log.NoIndex", Quick: B{"segs": 2, "recs": 1, "vers": 1, "profs": 1}, Split: layoutSplit, Reach: []string{"noindex"}}
-	addProp(&Prop{ID: "C10", DesignRef: "DESIGN.md §4 C10", Runs: []HarnessRun{idxTime, qTime, noIndex},
+	session := HarnessRun{Name: "h_log.Session", Quick: B{"segs": 2, "recs": 1, "vers": 1, "profs": 1, "calls": 2}, Thorough: B{"segs": 2, "recs": 2, "vers": 2, "profs": 1, "calls": 2},
+		Split: append(append([]SplitDim{}, layoutSplit...), SplitDim{"roll", two}, SplitDim{"calls", same("calls")}, SplitDim{"view", func(map[string]int) int { return 3 }}), Reach: []string{"session", "equal-run"}}
+	addProp(&Prop{ID: "C10", DesignRef: "DESIGN.md §4 C10", Runs: []HarnessRun{idxTime, qTime, noIndex, session},
 		Assumptions: []string{"message times never decrease with offset and are not before 1970-01-01 (pre-1970 times: see known finding C10-negative-times)", "query times at 1 microsecond granularity"}})
 	qKey := HarnessRun{Name: "h_log.QueryKey", Quick: B{"segs": 2, "recs": 2, "vers": 3, "profs": 2, "keylen": 1}, Thorough: B{"segs": 3, "recs": 2, "vers": 4, "profs": 3, "keylen": 2}, Split: layoutSplit,
-		Reach: []string{"index-rebuilt", "uf:hash-collision", "absent", "present", "empty-key-present"}}
-	addProp(&Prop{ID: "C09", DesignRef: "DESIGN.md §4 C09", Runs: []HarnessRun{qKey, noIndex},
+		Reach: []string{"index-rebuilt", "uf:hash-collision", "absent", "present", "empty-key-present", "cursor-before-first-segment"}}
+	qKeyReal := HarnessRun{Name: "h_log.QueryKeyReal", Quick: B{"segs": 2, "recs": 1, "vers": 1, "profs": 1, "realkeys": 3}, Thorough: B{"segs": 2, "recs": 2, "vers": 2, "profs": 1, "realkeys": 5},
+		Split: []SplitDim{{"layout", numLayouts}, {"ver", same("vers")}, {"prof", same("profs")}}, Reach: []string{"real-hash-collision"}}
+	addProp(&Prop{ID: "C09", DesignRef: "DESIGN.md §4 C09", Runs: []HarnessRun{qKey, qKeyReal, noIndex, session},
 		Assumptions: []string{"FNV-1a-64 is an uninterpreted function: the solver is free to make any two keys collide"}})
 	lenCount := func(name string) func(map[string]int) int {
 		return func(b map[string]int) int {
@@ -98,7 +121,6 @@ func init() {
 			return 10
 		}
 	}
-	two := func(map[string]int) int { return 2 }
 	codecSplit := []SplitDim{{"v1", two}, {"klen", lenCount("klen")}, {"vlen", lenCount("vlen")}}
 	roundTrip := HarnessRun{Name: "h_codec.RoundTrip", Quick: B{}, Thorough: B{"all_klen": 1}, Split: codecSplit, Reach: []string{"roundtrip"}}
 	roundTrip2 := HarnessRun{Name: "h_codec.RoundTrip", Quick: B{"all_vlen": 1, "quick_skip": 1}, Thorough: B{"all_vlen": 1}, Split: codecSplit, Reach: []string{"roundtrip"}}
@@ -120,7 +142,9 @@ func init() {
 	indexDamage := HarnessRun{Name: "h_recover.IndexDamage", Quick: recQ, Thorough: recT,
 		Split: append(append([]SplitDim{}, recSplit...), SplitDim{"kind", func(map[string]int) int { return 3 }}),
 		Reach: []string{"index-truncated", "index-byte-changed", "index-extra-item"}}
-	addProp(&Prop{ID: "C07", DesignRef: "DESIGN.md §4 C07", Runs: []HarnessRun{truncated, byteChanged, indexDamage},
+	truncAny := HarnessRun{Name: "h_recover.Truncated", Quick: B{"recs": 3, "profs": 1, "anytimes": 1, "fix.n": 2, "fix.times": 1, "fix.keys": 0}, Thorough: B{"recs": 3, "profs": 1, "anytimes": 1, "fix.n": 2, "fix.times": 1},
+		Split: []SplitDim{{"v1", two}, {"prof", same("profs")}}, Reach: []string{"clean"}}
+	addProp(&Prop{ID: "C07", DesignRef: "DESIGN.md §4 C07", Runs: []HarnessRun{truncated, byteChanged, indexDamage, truncAny},
 		Assumptions: []string{"ReadAt follows its documented contract: n = min(len(p), max(0, size-off)) and io.EOF iff n < len(p) (never io.ErrUnexpectedEOF)",
 			"CRC32C is an uninterpreted function; a changed record is assumed not to verify by an accidental checksum collision (probability 2^-32)",
 			"message times never decrease with offset and are not before 1970 when a time index is configured"}})
@@ -130,12 +154,12 @@ func init() {
 	step := func(name string, q, t B, reach ...string) HarnessRun {
 		return HarnessRun{Name: "h_step." + name, Quick: q, Thorough: t, Split: stepSplit, Reach: reach}
 	}
-	stepT := B{"segs": 3, "recs": 2, "vers": 4, "profs": 2, "paramsets": 4, "rmindex": 4, "batch": 2, "deletes": 2}
+	var stepT B // thorough = deepen(quick)
 	delReach := []string{"empty-set", "negative-offset", "deleted-some", "head-emptied", "reader-segment-emptied", "head-rebased", "reader-segment-rebased", "head-tail-deleted"}
 	// C01: content fidelity across publish / delete / reopen
 	addProp(&Prop{ID: "C01", DesignRef: "DESIGN.md §4 C01, §3.5", Runs: []HarnessRun{
 		step("Publish", B{"segs": 2, "recs": 2, "vers": 1, "profs": 1, "paramsets": 2, "rmindex": 1, "batch": 2}, stepT, "rollover", "empty-batch", "empty-batch-with-rollover", "zero-time"),
-		step("Delete", B{"segs": 2, "recs": 2, "vers": 1, "profs": 1, "paramsets": 2, "rmindex": 1, "deletes": 1}, stepT, "deleted-some", "head-emptied", "reader-segment-emptied", "head-rebased", "reader-segment-rebased"),
+		step("Delete", B{"segs": 2, "recs": 2, "vers": 1, "profs": 1, "paramsets": 1, "rmindex": 2, "deletes": 1}, stepT, "deleted-some", "head-emptied", "reader-segment-emptied", "head-rebased", "reader-segment-rebased", "head-tail-deleted"),
 		step("Reopen", B{"segs": 2, "recs": 2, "vers": 2, "profs": 1, "paramsets": 1, "rmindex": 2}, stepT, "eager-migrate", "readonly", "all-index-files-removed"),
 	}, Assumptions: []string{"one inductive step from an arbitrary well-formed directory (DESIGN §3.2, §3.5); in-session chains longer than the harness performs are outside the claim",
 		"Check/Recover reopen with a time index only for non-decreasing, non-negative times"}})
@@ -143,6 +167,8 @@ func init() {
 	addProp(&Prop{ID: "C02", DesignRef: "DESIGN.md §4 C02", Runs: []HarnessRun{
 		step("Reuse", B{"segs": 2, "recs": 2, "vers": 2, "profs": 1, "paramsets": 1, "rmindex": 1}, stepT, "all-deleted", "tail-deleted", "empty-head-reopened"),
 		step("Publish", B{"segs": 2, "recs": 1, "vers": 1, "profs": 1, "paramsets": 2, "rmindex": 1, "batch": 2}, stepT, "rollover", "empty-batch", "empty-batch-with-rollover"),
+		step("Reuse", B{"segs": 1, "recs": 3, "vers": 1, "profs": 1, "paramsets": 1, "rmindex": 1}, B{"segs": 2, "recs": 3, "vers": 2, "profs": 1, "paramsets": 2, "rmindex": 1}, "tail-deleted"),
+		step("Delete", B{"segs": 1, "recs": 3, "vers": 1, "profs": 1, "paramsets": 1, "rmindex": 1, "deletes": 2}, B{"segs": 1, "recs": 3, "vers": 2, "profs": 1, "paramsets": 2, "rmindex": 1, "deletes": 2}, "deleted-some"),
 		qStat,
 	}})
 	// C11: index files are derived data
@@ -150,6 +176,7 @@ func init() {
 		step("Reopen", B{"segs": 2, "recs": 1, "vers": 2, "profs": 1, "paramsets": 4, "rmindex": 4}, stepT, "all-index-files-removed", "readonly"),
 		step("Delete", B{"segs": 2, "recs": 2, "vers": 1, "profs": 1, "paramsets": 1, "rmindex": 2, "deletes": 1}, stepT, "deleted-some"),
 		step("Migrate", B{"segs": 2, "recs": 2, "vers": 3, "profs": 1, "paramsets": 2, "rmindex": 2}, stepT, "migrate"),
+		step("Publish", B{"segs": 2, "recs": 1, "vers": 1, "profs": 1, "paramsets": 1, "rmindex": 4, "batch": 1}, stepT, "rollover"),
 		{Name: qKey.Name, Quick: B{"quick_skip": 1}, Thorough: qKey.Thorough, Split: qKey.Split, Reach: qKey.Reach},
 		{Name: qTime.Name, Quick: B{"quick_skip": 1}, Thorough: qTime.Thorough, Split: qTime.Split, Reach: qTime.Reach},
 	}, Assumptions: []string{"index timestamps are compared with message times only when times never decrease with offset (and are not before 1970)"}})
@@ -157,7 +184,7 @@ func init() {
 	addProp(&Prop{ID: "C17", DesignRef: "DESIGN.md §4 C17", Runs: []HarnessRun{
 		step("Migrate", B{"segs": 2, "recs": 2, "vers": 4, "profs": 2, "paramsets": 2, "rmindex": 1}, stepT, "migrate"),
 		step("Reopen", B{"segs": 2, "recs": 2, "vers": 4, "profs": 1, "paramsets": 1, "rmindex": 1}, stepT, "eager-migrate"),
-		step("Delete", B{"segs": 2, "recs": 2, "vers": 4, "profs": 1, "paramsets": 1, "rmindex": 1, "deletes": 1}, stepT, "deleted-some", "head-rebased", "reader-segment-rebased"),
+		step("Delete", B{"segs": 2, "recs": 2, "vers": 4, "profs": 1, "paramsets": 1, "rmindex": 1, "deletes": 1}, stepT, "deleted-some", "head-rebased", "reader-segment-rebased", "rewritten-segment-version"),
 		step("Publish", B{"segs": 2, "recs": 1, "vers": 4, "profs": 1, "paramsets": 1, "rmindex": 1, "batch": 1}, stepT, "rollover"),
 	}})
 	stepDelete := step("Delete", B{"segs": 2, "recs": 2, "vers": 2, "profs": 1, "paramsets": 1, "rmindex": 2, "deletes": 1}, stepT, delReach...)
@@ -183,7 +210,7 @@ func init() {
 			"ReadAt follows its documented contract"}})
 	// C15 / C16: helpers on the real log
 	helpQ := B{"segs": 2, "recs": 2, "vers": 2, "profs": 1}
-	helpT := B{"segs": 3, "recs": 2, "vers": 3, "profs": 2}
+	var helpT B
 	help := func(name string, q, t B, reach ...string) HarnessRun {
 		sp := layoutSplit
 		if name == "Updates" || name == "Deletes" || name == "TrimAge" {
@@ -198,10 +225,12 @@ func init() {
 		help("TrimAge", helpQ, helpT, "monotone", "inside"),
 	}, Assumptions: []string{"times at 1 microsecond granularity", "the fixed batch size 32 of the helpers is larger than the logs explored: batch boundaries occur at segment ends only"}})
 	cmpQ := B{"segs": 2, "recs": 2, "vers": 1, "profs": 2, "prof_base": 3}
-	cmpT := B{"segs": 3, "recs": 2, "vers": 2, "profs": 2, "prof_base": 3}
+	var cmpT B
 	addProp(&Prop{ID: "C16", DesignRef: "DESIGN.md §4 C16", Runs: []HarnessRun{
 		help("Updates", cmpQ, cmpT, "update-found"),
 		help("Deletes", cmpQ, cmpT, "delete-found"),
+		help("Updates", B{"segs": 2, "recs": 1, "vers": 1, "profs": 1, "prof_base": 3, "realkeys": 2}, B{"segs": 2, "recs": 2, "maxmsgs": 3, "vers": 1, "profs": 1, "prof_base": 3, "realkeys": 3}, "update-found"),
+		help("Deletes", B{"segs": 2, "recs": 1, "vers": 1, "profs": 1, "prof_base": 3, "realkeys": 2}, B{"segs": 2, "recs": 2, "maxmsgs": 3, "vers": 1, "profs": 1, "prof_base": 3, "realkeys": 3}, "delete-found"),
 	}, Assumptions: []string{"keys of length 1 (symbolic byte, so repeats are chosen by the solver), values of length 1 or absent"}})
 	// C19 / C20
 	addProp(&Prop{ID: "C19", DesignRef: "DESIGN.md §4 C19", Runs: []HarnessRun{
@@ -223,18 +252,20 @@ func init() {
 		crash("Publish", 5, B{"segs": 2, "recs": 1, "vers": 1, "profs": 1, "publishes": 1, "batch": 2, "taps": 32}, B{"segs": 2, "recs": 2, "vers": 2, "profs": 1, "publishes": 2, "batch": 2, "taps": 64}, "crashed", "completed", "inflight-prefix-survived"),
 		crash("Delete", 5, B{"segs": 2, "recs": 2, "maxmsgs": 3, "vers": 1, "profs": 1, "taps": 40}, B{"segs": 2, "recs": 2, "vers": 2, "profs": 1, "taps": 64}, "crashed", "applied", "not-applied"),
 		crash("Migrate", 5, B{"segs": 2, "recs": 1, "vers": 2, "profs": 1, "taps": 40}, B{"segs": 2, "recs": 2, "vers": 2, "profs": 1, "taps": 64}, "crashed"),
-		crash("Recover", 5, B{"segs": 2, "recs": 1, "vers": 1, "profs": 1, "taps": 24}, B{"segs": 2, "recs": 2, "vers": 2, "profs": 1, "taps": 32}, "crashed"),
+		crash("Recover", 5, B{"segs": 2, "recs": 1, "vers": 2, "profs": 1, "taps": 24}, B{"segs": 2, "recs": 2, "vers": 2, "profs": 1, "taps": 32}, "crashed"),
 	}, Assumptions: []string{"crash model of the property: file-system calls take effect in program order; the process may die right before any mutating call of klevdb (os.OpenFile, Write, Sync, Rename, Remove, Chtimes, MkdirAll, io.Copy); an append may be torn at any byte except inside the first 8 bytes of a file; nothing else is lost (loss of unsynced data is C06)",
 		"keys pairwise different and times strictly increasing in the crash workloads (coincidences are the subject of C09/C10)"}})
 	addProp(&Prop{ID: "C06", DesignRef: "DESIGN.md §4 C06", Runs: []HarnessRun{
 		crash("Publish", 6, B{"segs": 2, "recs": 1, "maxmsgs": 1, "vers": 1, "profs": 1, "publishes": 1, "batch": 1, "taps": 32}, B{"segs": 2, "recs": 2, "vers": 2, "profs": 1, "publishes": 2, "batch": 2, "taps": 64}, "crashed", "completed", "synced"),
+		crash("Publish", 6, B{"segs": 1, "recs": 1, "vers": 1, "profs": 1, "publishes": 2, "fix.publishes": 1, "fix.roll": 1, "batch": 1, "taps": 40}, B{"quick_skip": 0, "segs": 1, "recs": 1, "vers": 1, "profs": 1, "publishes": 2, "batch": 1, "taps": 40}, "synced"),
+		crash("Delete", 6, B{"segs": 2, "recs": 1, "vers": 1, "profs": 1, "taps": 40}, B{"segs": 2, "recs": 2, "maxmsgs": 3, "vers": 1, "profs": 1, "taps": 48}, "crashed", "applied"),
 	}, Assumptions: []string{"tail-loss model of the property: at the crash every file is independently cut back to any length between its last fsynced length and its current length (the first 8 bytes of a file are atomic); directory operations are durable in program order"}})
 	// C18: notify and the blocking wrapper under the schedule variable
 	three := func(map[string]int) int { return 3 }
 	addProp(&Prop{ID: "C18", DesignRef: "DESIGN.md §4 C18, §10.6", Runs: []HarnessRun{
 		{Name: "h_sync.NotifyImmediate", Quick: B{"sched_replay": 1}, Reach: []string{"below", "after-close"}},
 		{Name: "h_sync.BlockingImmediate", Quick: B{"sched_replay": 1}, Reach: []string{"immediate"}},
-		{Name: "h_sync.NotifyWake", Quick: B{"waiters": 2, "publishers": 1, "preemptions": 1, "sched_replay": 1}, Thorough: B{"waiters": 2, "publishers": 2, "preemptions": 2, "sched_replay": 1},
+		{Name: "h_sync.NotifyWake", Quick: B{"waiters": 1, "publishers": 2, "preemptions": 1, "sched_replay": 1}, Thorough: B{"waiters": 2, "publishers": 2, "preemptions": 2, "sched_replay": 1},
 			Split: []SplitDim{{"waiters", same("waiters")}, {"publishers", same("publishers")}, {"close", two}}, Reach: []string{"still-parked", "returned"}},
 		{Name: "h_sync.BlockingWake", Quick: B{"waiters": 1, "publishers": 1, "preemptions": 1, "sched_replay": 1}, Thorough: B{"waiters": 2, "publishers": 2, "preemptions": 2, "sched_replay": 1},
 			Split: []SplitDim{{"waiters", same("waiters")}, {"publishers", same("publishers")}, {"close", two}, {"cancel", two}, {"woff", three}},
@@ -243,5 +274,17 @@ func init() {
 		"bounded: waiters, publishers and preemptive context switches as listed in coverage.harnesses[*].bounds (switches at blocking operations are free)",
 		"schedule counterexamples are validated by concrete re-execution of the real SSA under the model's inputs and the recorded schedule (not by a native run: free-running goroutines do not follow a schedule)",
 		"the blocking wrapper runs over a minimal sequential Log written in the harness (it only uses the Log interface)"}})
+	// C08: pairs of concurrent calls on the real log under the schedule variable
+	nine := func(map[string]int) int { return 9 }
+	pairSplit := []SplitDim{{"layout", numLayouts}, {"ver", same("vers")}, {"prof", same("profs")}, {"rmindex", two}, {"roll", two}, {"opa", nine}, {"opb", nine}}
+	addProp(&Prop{ID: "C08", DesignRef: "DESIGN.md §4 C08, §10.6", Runs: []HarnessRun{
+		{Name: "h_conc.Pair", Quick: B{"segs": 2, "recs": 1, "vers": 1, "profs": 1, "preemptions": 1, "sched_replay": 1, "pairs_mutating_only": 1},
+			Thorough: B{"segs": 2, "recs": 2, "maxmsgs": 3, "vers": 1, "profs": 1, "preemptions": 2, "sched_replay": 1}, Split: pairSplit,
+			Reach: []string{"pair-done", "two-publishers", "consume-concurrent", "tail-consume", "index-files-removed"}},
+		{Name: "h_conc.Pair", Quick: B{"quick_skip": 1}, Thorough: B{"segs": 1, "recs": 2, "vers": 1, "profs": 1, "preemptions": 2, "split_writes": 1, "sched_replay": 1, "fix.rmindex": 0, "fix.roll": 0, "fix.opa": 0}, 
+			Split: []SplitDim{{"layout", numLayouts}, {"ver", same("vers")}, {"prof", same("profs")}, {"opb", nine}}, Reach: []string{"pair-done"}},
+	}, Assumptions: []string{"PARTIAL claim: two concurrent calls (every pair with at least one of Publish / Delete in quick) on small directories; context switches only at visible operations (mutex, atomic, channel operations and file-system calls), sequential consistency, bounded preemptions; data-race freedom (lockset) and longer histories are NOT decided",
+		"schedule counterexamples are validated by concrete re-execution of the real SSA under the model's inputs and the recorded schedule",
+		"thorough adds split writes: an append may become visible in two steps (as at a page boundary)"}})
 	addProp(&Prop{ID: "C12", DesignRef: "DESIGN.md §4 C12", Runs: []HarnessRun{minOff, stepDelete, stepDelete2, stepDelMulti}})
 }
